@@ -24,7 +24,8 @@ def frame(n):
     df = pd.DataFrame({
         "y": np.round(np.sin(i) * 2 + 3, 3), "z": np.round(np.cos(i) + 2, 3), "x": np.round(i * 0.7 + 1, 2),
         "f": [["b", "c", "a"][k % 3] for k in i], "g": [["g2", "g1"][(k // 2) % 2] for k in i], "kk": [[30, 10, 20][(k + k // 3) % 3] for k in i],
-        "s": [(k * 3) % 5 for k in i], "n": [5 + (k % 3) for k in i],
+        "s": [(k * 3) % 5 for k in i], "n": [5 + (k % 3) for k in i], "s8": np.array([(k * 3) % 5 for k in i], dtype="int8"),
+        "yn": [["café", "Zürich", "x y"][(k + k // 5) % 3] for k in i],
         "ys": [["mid", "low", "high"][(k + k // 4) % 3] for k in i],
         "yq": [["level one", "b two", "a-3"][(2 * k + k // 3) % 3] for k in i],
     })
@@ -52,6 +53,9 @@ RESP += [
     {"text": "binary(f)", "kind": "binary", "col": "f", "level": "a"},
     {"text": "prop(s, n)", "kind": "prop", "trials": "n"}, {"text": "p(s, n)", "kind": "prop", "trials": "n"}, {"text": "proportion(s, 9)", "kind": "prop", "trials": 9},
     {"text": "prop(s, 4)", "kind": "prop", "trials": 4},
+    {"text": "prop(s8, 300)", "kind": "prop", "trials": 300, "succ": "s8"}, {"text": "prop(s8, n)", "kind": "prop", "trials": "n", "succ": "s8"},
+    {"text": "yn", "kind": "cat", "col": "yn", "order": "sorted"}, {"text": "yn['café']", "kind": "level", "col": "yn", "level": "café"},
+    {"text": 'yn["Zürich"]', "kind": "level", "col": "yn", "level": "Zürich"}, {"text": "yn['x y']", "kind": "level", "col": "yn", "level": "x y"},
 ]
 INVALID = ["ys[low] + ys[mid]", "ys[low]:ys[mid]", "ys + ys[low]", "ys[low] + ys", "y + z", "y * z", "y / z", "y:z", "(y|g)", "(1|g)", "offset(y)", "1", "0", "y + (1|g)", "(y + z)", "y:z:x", "y ** 2 + z"]
 
@@ -168,7 +172,7 @@ def check_case(case, acc):
                 problems.append(("level-indicator", f"{f!r}: response is not the single 0/1 column of {r['col']} == {r['level']!r} (got {M.reshape(len(df), -1)[:, 0].tolist()})"))
         elif k == "prop":
             tr = df["n"].to_numpy(dtype=float) if r["trials"] == "n" else np.full(len(df), float(r["trials"]))
-            want = np.column_stack([df["s"].to_numpy(dtype=float), tr])
+            want = np.column_stack([df[r.get("succ", "s")].to_numpy(dtype=float), tr])
             if M.shape != want.shape or not np.array_equal(M, want) or R.kind != "proportion":
                 problems.append(("prop-successes-trials", f"{f!r}: response is not [successes, trials] (kind {R.kind}, shape {M.shape})"))
         if M.shape[0] != len(df):
